@@ -16,17 +16,20 @@ Has(r, f) == f \in DOMAIN r
 (* sl: micro-nepers (1e-6 relative); bal: units of 1e-8 of the scale     *)
 (* int: integral budgets.  Calibration (DESIGN.md section 7): >= 10 x the worst residual seen on   *)
 (* the thorough campaign of the unchanged tree, <= 1/10 of the smallest seeded-mutant effect.     *)
-Tol == [ closed   |-> [sl |-> 5,     bal |-> 100,     jump |-> 200,     int |-> 200],
-         root     |-> [sl |-> 50,    bal |-> 20000,   jump |-> 20000,   int |-> 20000],
-         ode      |-> [sl |-> 200,   bal |-> 100000,  jump |-> 100000,  int |-> 100000],
-         series   |-> [sl |-> 200,   bal |-> 100000,  jump |-> 100000,  int |-> 100000],
-         table    |-> [sl |-> 2000,  bal |-> 2000000, jump |-> 2000000, int |-> 2000000],
+(* field: the term-vector laws of Catalogue.FieldLaws.  Worst residuals seen on the unchanged tree (units 1e-8):   *)
+(* burn times / Blake <= 1; heat series (Nsum 200-400) <= 1; radiative-shock fluxes 0; Su-Olson 3e4 (the solver's   *)
+(* own 1e-6 quadrature tolerance through a second difference); reaction zone 4e3 (201-point table).                  *)
+Tol == [ closed   |-> [sl |-> 5,     bal |-> 100,     jump |-> 200,     int |-> 200,     field |-> 2000],
+         root     |-> [sl |-> 50,    bal |-> 20000,   jump |-> 20000,   int |-> 20000,   field |-> 400000],
+         ode      |-> [sl |-> 200,   bal |-> 100000,  jump |-> 100000,  int |-> 100000,  field |-> 20000],
+         series   |-> [sl |-> 200,   bal |-> 100000,  jump |-> 100000,  int |-> 100000,  field |-> 20000],
+         table    |-> [sl |-> 2000,  bal |-> 2000000, jump |-> 2000000, int |-> 2000000, field |-> 100000],
          (* Sedov observed on its own exact nodes: differences on the node spacing (worst 3e-3), *)
          (* node-exact shock states (3e-7), Simpson on 3001 nodes (energy 3e-7, mass 5e-5)       *)
          (* EHEP: closed forms, but the solver assigns points within ~1e-6 of a region boundary to the first region *)
          (* it tests (point_on_line tolerance): located fronts carry that fuzz                                    *)
-         ehep     |-> [sl |-> 5,     bal |-> 100,     jump |-> 2000,    int |-> 2000],
-         sedov    |-> [sl |-> 20,    bal |-> 3000000, jump |-> 1000,    int |-> 50000] ]
+         ehep     |-> [sl |-> 5,     bal |-> 100,     jump |-> 2000,    int |-> 2000,    field |-> 2000],
+         sedov    |-> [sl |-> 20,    bal |-> 3000000, jump |-> 1000,    int |-> 50000,   field |-> 100000] ]
 
 (* ---- equation of state (C03) --------------------------------------- *)
 (* kind "gamma": p = (gamma-1) rho e ; optional sound speed c^2 = gamma p / rho *)
